@@ -24,6 +24,7 @@ var res *vkit.Result
 var (
 	vals []interface{} // one value per item, built once (WriteAny must not modify its inputs)
 	bad  []bool        // WriteAny refuses the item
+	noop []bool        // WriteAny accepts the item but leaves the transcript unchanged
 	errs []string
 )
 
@@ -42,8 +43,10 @@ func prepareItems(check bool) {
 	for i, it := range items {
 		v := it.Mk()
 		vals = append(vals, v)
-		err, _, _ := write(hash.New(), v)
+		h0 := hash.New()
+		err, _, _ := write(h0, v)
 		bad = append(bad, err != nil)
+		noop = append(noop, err == nil && sum(h0) == sum(hash.New()))
 		if err != nil {
 			errs = append(errs, err.Error())
 		} else {
@@ -76,6 +79,9 @@ func checkItem(i int) {
 	}
 	if err != nil && sum(h) != empty {
 		res.Violate("partial-write|"+it.Type, fmt.Sprintf("WriteAny(%s) returned %q but changed the hash state", it.Name, err), rp)
+	}
+	if err == nil && sum(h) == empty {
+		res.Violate("silent-noop|WriteAny|"+it.Type, fmt.Sprintf("WriteAny(%s) returns no error but leaves the transcript unchanged: [x, %s] and [x] have the same digest for every x", it.Name, it.Name), rp)
 	}
 }
 
@@ -149,6 +155,29 @@ func digestWrite(s seq) (d string, ok bool) {
 // the same distance from the start or the end are dropped; if the remaining pair has equal
 // length and every position collides on its own, the single positions are returned instead.
 func core(a, b seq) [][2]seq {
+	strip := func(s seq) seq {
+		var out seq
+		for _, x := range s {
+			if !noop[x] {
+				out = append(out, x)
+			}
+		}
+		return out
+	}
+	if sa, sb := strip(a), strip(b); len(sa) != len(a) || len(sb) != len(b) {
+		// items that hash as nothing are reported on their own (silent-noop); what is left may be explained by them
+		for _, s := range []seq{a, b} {
+			for _, x := range s {
+				if noop[x] {
+					checkItem(x)
+				}
+			}
+		}
+		if sameIDs(sa, sb) {
+			return nil
+		}
+		a, b = sa, sb
+	}
 	for len(a) > 0 && len(b) > 0 && items[a[0]].ID == items[b[0]].ID {
 		a, b = a[1:], b[1:]
 	}
